@@ -509,7 +509,20 @@ class Ctx:
         return run_model(self.exe, lines, timeout)
 
     def impl(self, script, payload, timeout=3000, extra_env=None):
-        return run_impl(script, payload, timeout, extra_env)
+        res = run_impl(script, payload, timeout, extra_env)
+        if isinstance(res, dict) and res.get("label_problems"):
+            # implcommon.audit: a labelled result whose dimensions / coordinate values are not those of its input
+            seen = set()
+            for lp in res["label_problems"]:
+                sig = (lp.get("what"), lp.get("problem", "")[:40])
+                if sig in seen:
+                    continue
+                seen.add(sig)
+                self.tally("label-audit-failure:" + str(lp.get("what")))
+                self.oracle_fail("%s: %s (each value must stay attached to its point / frequency / direction / time)"
+                                 % (lp.get("what"), lp.get("problem")), {"call": lp.get("call"), "result": lp.get("what"),
+                                                                          "label_problem": lp.get("problem")})
+        return res
 
     # -- reporting
     def disagree(self, desc, replay, key=None, is_property_failure=False):
